@@ -8,6 +8,7 @@
 -/
 import LyonVerif.Lemmas.StrokeCoverRun
 import LyonVerif.Lemmas.StrokeCoverGeo
+import LyonVerif.Lemmas.StrokeCoverClipJoin
 
 set_option linter.unusedSectionVars false
 set_option linter.unusedVariables false
@@ -22,7 +23,8 @@ variable {K : Type} [Field K] [LinearOrder K] [IsStrictOrderedRing K] [Transc K]
 /-- `compute_join_side_positions_fixed_width` on a fresh endpoint, Bevel or Miter join, no fold -/
 theorem joinSidesFw_closed (ix : Lyon.StrokeQuad.Ix K) (prev join next : EP K) (ml hw : K)
     (hlj : join.lineJoin = .bevel ∨ join.lineJoin = .miter
-      ∨ (join.lineJoin = .miterClip ∧ (fwGeo prev join next ml hw).unclipped = true))
+      ∨ (join.lineJoin = .miterClip ∧ (fwGeo prev join next ml hw).unclipped = true)
+      ∨ join.lineJoin = .round)
     (hps : join.pos.single = none) (hns : join.neg.single = none)
     (hfold : (fwGeo prev join next ml hw).fold = false) :
     (joinSidesFw ix prev join next ml hw).pos.prev = join.position + (perp (fwGeo prev join next ml hw).pt).smul hw
@@ -41,10 +43,11 @@ theorem joinSidesFw_closed (ix : Lyon.StrokeQuad.Ix K) (prev join next : EP K) (
           = if (fwGeo prev join next ml hw).unclipped then some (join.position + (fwGeo prev join next ml hw).normal.smul hw) else none) := by
   unfold joinSidesFw frontFix
   simp only [hfold, Bool.false_eq_true, if_false]
-  rcases hlj with h | h | ⟨h, hu⟩
+  rcases hlj with h | h | ⟨h, hu⟩ | h
   · rw [h]; split_ifs <;> simp_all
   · rw [h]; split_ifs <;> simp_all
   · rw [h, hu]; simp
+  · rw [h]; split_ifs <;> simp_all
 
 /-- `perp t1 = c·perp t0 − s·t0`, `t1 = c·t0 + s·perp t0` for a unit `t0` -/
 theorem rot_of_unit (t0 t1 : P K) (h0 : t0.sqLen = 1) :
@@ -144,11 +147,11 @@ def keptAt (e : Env K) (p j n : P K) : Prop :=
 
 /-- the side points of the join at `pt (k+1)` in closed form; `ps` / `ns`: the positive / negative side
 has a single vertex -/
-structure JClosed (e : Env K) (pt : Nat → P K) (k : Nat) (ps ns : Bool) : Prop where
+structure JClosed0 (e : Env K) (pt : Nat → P K) (k : Nat) (ps ns : Bool) : Prop where
   cpos : 0 < 1 + (eT pt k).dot (eT pt (k + 1))
   inner_pos : 0 ≤ (eT pt k).cross (eT pt (k + 1)) → ps = true
   inner_neg : (eT pt k).cross (eT pt (k + 1)) < 0 → ns = true
-  bevel : e.o.join = .bevel → ¬ (ps = true ∧ ns = true)
+  bevel : (e.o.join = .bevel ∨ e.o.join = .round) → ¬ (ps = true ∧ ns = true)
   psingle : (jEP e pt (k + 1)).pos.single.isSome = ps
   nsingle : (jEP e pt (k + 1)).neg.single.isSome = ns
   posPrev : (jEP e pt (k + 1)).pos.prev = pt (k + 1) + (perp (eT pt k)).smul e.hwFw
@@ -164,15 +167,15 @@ structure JClosed (e : Env K) (pt : Nat → P K) (k : Nat) (ps ns : Bool) : Prop
   sNegNext : sNext (jEP e pt (k + 1)).neg
     = pt (k + 1) - (perp (eT pt (k + 1))).smul e.hwFw + (eT pt (k + 1)).smul (e.hwFw * (if ns then -jtau pt k else 0))
 
-theorem jEP_closed (e : Env K)
+theorem jEP_closed0 (e : Env K)
     (hs0 : ∀ x : K, 0 ≤ x → 0 ≤ Transc.sqrt x) (hs : ∀ x : K, 0 ≤ x → Transc.sqrt x * Transc.sqrt x = x)
     (pt : Nat → P K) (k : Nat)
     (hj : e.o.join = .bevel ∨ e.o.join = .miter
-      ∨ (e.o.join = .miterClip ∧ keptAt e (pt k) (pt (k + 1)) (pt (k + 1 + 1))))
+      ∨ (e.o.join = .miterClip ∧ keptAt e (pt k) (pt (k + 1)) (pt (k + 1 + 1))) ∨ e.o.join = .round)
     (hL0 : 0 < (pt (k + 1) - pt k).sqLen) (hL1 : 0 < (pt (k + 1 + 1) - pt (k + 1)).sqLen)
     (hg : ¬ (eT pt k + eT pt (k + 1)).sqLen < normalEpsilon)
     (hnf : noFoldAt e (pt k) (pt (k + 1)) (pt (k + 1 + 1))) :
-    JClosed e pt k (jEP e pt (k + 1)).pos.single.isSome (jEP e pt (k + 1)).neg.single.isSome := by
+    JClosed0 e pt k (jEP e pt (k + 1)).pos.single.isSome (jEP e pt (k + 1)).neg.single.isSome := by
   have hu0 : (eT pt k).sqLen = 1 := (sdiv_unit hs0 hs _ hL0).2
   have hu1 : (eT pt (k + 1)).sqLen = 1 := (sdiv_unit hs0 hs _ hL1).2
   obtain ⟨hc, hN0, hN1⟩ := normal_closed hs0 hs _ _ hu0 hu1 hg
@@ -190,11 +193,13 @@ theorem jEP_closed (e : Env K)
   have hlj : (linePt e (k + 1, pt (k + 1))).lineJoin = .bevel ∨ (linePt e (k + 1, pt (k + 1))).lineJoin = .miter
       ∨ ((linePt e (k + 1, pt (k + 1))).lineJoin = .miterClip
         ∧ (fwGeo (linePt e (k, pt k)) (linePt e (k + 1, pt (k + 1))) (linePt e (k + 1 + 1, pt (k + 1 + 1)))
-            e.o.miterLimit e.hwFw).unclipped = true) := by
-    rcases hj with h | h | ⟨h, hk⟩
+            e.o.miterLimit e.hwFw).unclipped = true)
+      ∨ (linePt e (k + 1, pt (k + 1))).lineJoin = .round := by
+    rcases hj with h | h | ⟨h, hk⟩ | h
     · exact Or.inl h
     · exact Or.inr (Or.inl h)
-    · exact Or.inr (Or.inr ⟨h, by rw [hcongr]; exact hk⟩)
+    · exact Or.inr (Or.inr (Or.inl ⟨h, by rw [hcongr]; exact hk⟩))
+    · exact Or.inr (Or.inr (Or.inr h))
   obtain ⟨c1, c2, c3, c4, c5, c6⟩ := joinSidesFw_closed e.ix (linePt e (k, pt k)) (linePt e (k + 1, pt (k + 1)))
     (linePt e (k + 1 + 1, pt (k + 1 + 1))) e.o.miterLimit e.hwFw hlj rfl rfl hfold
   rw [← hJ] at c1 c2 c3 c4 c5 c6
@@ -206,11 +211,11 @@ theorem jEP_closed (e : Env K)
       e.o.miterLimit e.hwFw).normal = computeNormal (eT pt k) (eT pt (k + 1)) := rfl
   have gf : (fwGeo (linePt e (k, pt k)) (linePt e (k + 1, pt (k + 1))) (linePt e (k + 1 + 1, pt (k + 1 + 1)))
       e.o.miterLimit e.hwFw).frontNeg = decide ((eT pt k).cross (eT pt (k + 1)) ≥ Scalar.zero) := rfl
-  have gu : e.o.join = .bevel → (fwGeo (linePt e (k, pt k)) (linePt e (k + 1, pt (k + 1))) (linePt e (k + 1 + 1, pt (k + 1 + 1)))
+  have gu : (e.o.join = .bevel ∨ e.o.join = .round) → (fwGeo (linePt e (k, pt k)) (linePt e (k + 1, pt (k + 1))) (linePt e (k + 1 + 1, pt (k + 1 + 1)))
       e.o.miterLimit e.hwFw).unclipped = false := by
     intro hb
     show ((e.o.join == Lyon.StrokeQuad.Join.miter || e.o.join == Lyon.StrokeQuad.Join.miterClip) && _) = false
-    rw [hb]; rfl
+    rcases hb with hb | hb <;> rw [hb] <;> rfl
   have hjp : (linePt e (k + 1, pt (k + 1))).position = pt (k + 1) := rfl
   rw [gpt, hjp] at c1 c3
   rw [gnt, hjp] at c2 c4
@@ -325,16 +330,26 @@ theorem edge_eq (hs0 : ∀ x : K, 0 ≤ x → 0 ≤ Transc.sqrt x) (hs : ∀ x :
   generalize len (pt (k + 1) - pt k) = L0 at hne
   apply P.ext' <;> simp only [geom] <;> exact (div_mul_cancel₀ _ hne).symm
 
+theorem clipSidePos_round (ix : Lyon.StrokeQuad.Ix K) (p q : P K) (hw : K) (sp other : P K) :
+    clipSidePos ix .round p q hw sp other = sp := rfl
+
 /-- **end cap**: the two vertices of `tessellate_last_edge` sit at `p ± perp(t)·w/2 + t·shift`
-(`shift = 0` butt, `w/2` square), given that the `next` side points of the point before are
+(`shift = 0` butt or round, `w/2` square), given that the `next` side points of the point before are
 `q ± perp(t)·w/2` -/
 theorem endCap_closed (e : Env K) (eps : K) (hix : e.ix = lineIntersection eps) (heps : 0 ≤ eps)
     (hs0 : ∀ x : K, 0 ≤ x → 0 ≤ Transc.sqrt x) (hs : ∀ x : K, 0 ≤ x → Transc.sqrt x * Transc.sqrt x = x)
-    (hec : e.o.endCap ≠ .round) (pt : Nat → P K) (m : Nat)
+    (pt : Nat → P K) (m : Nat)
     (hL : 0 < (pt (m + 1) - pt m).sqLen) (hlen : eps < eL pt m)
     (hprev : prevNext e pt (m + 1) = (pt m + (perp (eT pt m)).smul e.hwFw, pt m - (perp (eT pt m)).smul e.hwFw)) :
     endPos e pt (m + 1) = pt (m + 1) + (perp (eT pt m)).smul e.hwFw + (eT pt m).smul (capShift e.o.endCap e.hwFw)
     ∧ endNeg e pt (m + 1) = pt (m + 1) - (perp (eT pt m)).smul e.hwFw + (eT pt m).smul (capShift e.o.endCap e.hwFw) := by
+  by_cases hec : e.o.endCap = .round
+  · have hc0 : capShift e.o.endCap e.hwFw = 0 := by rw [hec]; rfl
+    have ht : normalize (pt (m + 1) - pt m) = eT pt m := rfl
+    unfold endPos endNeg endN
+    rw [hc0, hec]
+    simp only [clipSidePos_round, Nat.add_sub_cancel, ht]
+    constructor <;> (apply P.ext' <;> simp only [geom] <;> ring)
   obtain ⟨hL0, hunit, hE⟩ := edge_eq hs0 hs pt m hL
   have hmu : eps < |eL pt m| := by rw [abs_of_pos hL0]; exact hlen
   have ht : normalize (pt (m + 1) - pt m) = eT pt m := rfl
@@ -370,12 +385,20 @@ theorem endCap_closed (e : Env K) (eps : K) (hix : e.ix = lineIntersection eps) 
 that the `prev` side points of the second point are `q ± perp(t)·w/2 + t·μ`, `μ ≥ 0` -/
 theorem startCap_closed (e : Env K) (eps : K) (hix : e.ix = lineIntersection eps) (heps : 0 ≤ eps)
     (hs0 : ∀ x : K, 0 ≤ x → 0 ≤ Transc.sqrt x) (hs : ∀ x : K, 0 ≤ x → Transc.sqrt x * Transc.sqrt x = x)
-    (hsc : e.o.startCap ≠ .round) (pt : Nat → P K) (n : Nat)
+    (pt : Nat → P K) (n : Nat)
     (hL : 0 < (pt 1 - pt 0).sqLen) (hlen : eps < eL pt 0) (μ : K) (hμ : 0 ≤ μ)
     (hsec : secondPrev e pt n = (pt 1 + (perp (eT pt 0)).smul e.hwFw + (eT pt 0).smul μ,
       pt 1 - (perp (eT pt 0)).smul e.hwFw + (eT pt 0).smul μ)) :
     startPos e pt n = pt 0 + (perp (eT pt 0)).smul e.hwFw + (eT pt 0).smul (-(capShift e.o.startCap e.hwFw))
     ∧ startNeg e pt n = pt 0 - (perp (eT pt 0)).smul e.hwFw + (eT pt 0).smul (-(capShift e.o.startCap e.hwFw)) := by
+  by_cases hsc : e.o.startCap = .round
+  · have hc0 : capShift e.o.startCap e.hwFw = 0 := by rw [hsc]; rfl
+    have hfp : (fPt e pt).pos.next = pt 0 + (perp (eT pt 0)).smul e.hwFw := rfl
+    have hfn : (fPt e pt).neg.next = pt 0 - (perp (eT pt 0)).smul e.hwFw := rfl
+    unfold startPos startNeg
+    rw [hc0, hsc]
+    simp only [clipSidePos_round, hfp, hfn]
+    constructor <;> (apply P.ext' <;> simp only [geom] <;> ring)
   obtain ⟨hL0, hunit, hE⟩ := edge_eq hs0 hs pt 0 hL
   have ht : normalize (pt (0 + 1) - pt 0) = eT pt 0 := rfl
   have hswap : normalize (pt 0 - pt (0 + 1)) = (eT pt 0).smul (-1) := by rw [normalize_swap, ht]
@@ -409,6 +432,369 @@ theorem startCap_closed (e : Env K) (eps : K) (hix : e.ix = lineIntersection eps
       (by rw [hswap]; apply P.ext' <;> simp only [perp, geom] <;> linarith) hmu
     rw [this, hswap]
     apply P.ext' <;> simp only [perp, geom] <;> ring
+
+/-! ## the cap lemmas with shifted `other` ends of the side lines (a clipped join next to the cap) -/
+
+/-- **end cap**: the two vertices of `tessellate_last_edge` sit at `p ± perp(t)·w/2 + t·shift`
+(`shift = 0` butt, `w/2` square), given that the `next` side points of the point before are
+`q ± perp(t)·w/2` -/
+theorem endCap_closedG (e : Env K) (eps : K) (hix : e.ix = lineIntersection eps) (heps : 0 ≤ eps)
+    (hs0 : ∀ x : K, 0 ≤ x → 0 ≤ Transc.sqrt x) (hs : ∀ x : K, 0 ≤ x → Transc.sqrt x * Transc.sqrt x = x)
+    (pt : Nat → P K) (m : Nat)
+    (hL : 0 < (pt (m + 1) - pt m).sqLen) (hlen : eps < eL pt m) (νp νn : K) (hνp : νp ≤ 0) (hνn : νn ≤ 0)
+    (hprev : prevNext e pt (m + 1) = (pt m + (perp (eT pt m)).smul e.hwFw + (eT pt m).smul νp,
+      pt m - (perp (eT pt m)).smul e.hwFw + (eT pt m).smul νn)) :
+    endPos e pt (m + 1) = pt (m + 1) + (perp (eT pt m)).smul e.hwFw + (eT pt m).smul (capShift e.o.endCap e.hwFw)
+    ∧ endNeg e pt (m + 1) = pt (m + 1) - (perp (eT pt m)).smul e.hwFw + (eT pt m).smul (capShift e.o.endCap e.hwFw) := by
+  by_cases hec : e.o.endCap = .round
+  · have hc0 : capShift e.o.endCap e.hwFw = 0 := by rw [hec]; rfl
+    have ht : normalize (pt (m + 1) - pt m) = eT pt m := rfl
+    unfold endPos endNeg endN
+    rw [hc0, hec]
+    simp only [clipSidePos_round, Nat.add_sub_cancel, ht]
+    constructor <;> (apply P.ext' <;> simp only [geom] <;> ring)
+  obtain ⟨hL0, hunit, hE⟩ := edge_eq hs0 hs pt m hL
+  have hmup : eps < |eL pt m - νp| := by rw [abs_of_pos (by linarith)]; linarith
+  have hmun : eps < |eL pt m - νn| := by rw [abs_of_pos (by linarith)]; linarith
+  have ht : normalize (pt (m + 1) - pt m) = eT pt m := rfl
+  have hx : (pt (m + 1)).x - (pt m).x = (eT pt m).x * eL pt m := by
+    have := congrArg P.x hE; simpa only [geom] using this
+  have hy : (pt (m + 1)).y - (pt m).y = (eT pt m).y * eL pt m := by
+    have := congrArg P.y hE; simpa only [geom] using this
+  constructor
+  · unfold endPos endN
+    rw [hprev, hix]
+    show clipSidePos (lineIntersection eps) e.o.endCap (pt (m + 1)) (pt m) e.hwFw
+      (pt (m + 1) + (perp (normalize (pt (m + 1) - pt m))).smul e.hwFw) _ = _
+    have := clip_side_value eps heps e.o.endCap hec (pt (m + 1)) (pt m) (pt m + (perp (eT pt m)).smul e.hwFw + (eT pt m).smul νp)
+      e.hwFw e.hwFw (eL pt m - νp) (by rw [ht]; exact hunit)
+      (by rw [ht]; apply P.ext' <;> simp only [geom] <;> linarith) hmup
+    rw [ht] at this ⊢; exact this
+  · unfold endNeg endN
+    rw [hprev, hix]
+    show clipSidePos (lineIntersection eps) e.o.endCap (pt (m + 1)) (pt m) e.hwFw
+      (pt (m + 1) - (perp (normalize (pt (m + 1) - pt m))).smul e.hwFw) _ = _
+    have e1 : pt (m + 1) - (perp (normalize (pt (m + 1) - pt m))).smul e.hwFw
+        = pt (m + 1) + (perp (normalize (pt (m + 1) - pt m))).smul (-e.hwFw) := by
+      apply P.ext' <;> simp only [geom] <;> ring
+    rw [e1]
+    have := clip_side_value eps heps e.o.endCap hec (pt (m + 1)) (pt m) (pt m - (perp (eT pt m)).smul e.hwFw + (eT pt m).smul νn)
+      (-e.hwFw) e.hwFw (eL pt m - νn) (by rw [ht]; exact hunit)
+      (by rw [ht]; apply P.ext' <;> simp only [geom] <;> linarith) hmun
+    rw [ht] at this ⊢
+    rw [this]
+    apply P.ext' <;> simp only [geom] <;> ring
+
+/-- **start cap**: the two vertices of `tessellate_first_edge` sit at `p ± perp(t)·w/2 − t·shift`, given
+that the `prev` side points of the second point are `q ± perp(t)·w/2 + t·μ`, `μ ≥ 0` -/
+theorem startCap_closedG (e : Env K) (eps : K) (hix : e.ix = lineIntersection eps) (heps : 0 ≤ eps)
+    (hs0 : ∀ x : K, 0 ≤ x → 0 ≤ Transc.sqrt x) (hs : ∀ x : K, 0 ≤ x → Transc.sqrt x * Transc.sqrt x = x)
+    (pt : Nat → P K) (n : Nat)
+    (hL : 0 < (pt 1 - pt 0).sqLen) (hlen : eps < eL pt 0) (μ μn : K) (hμ : 0 ≤ μ) (hμn : 0 ≤ μn)
+    (hsec : secondPrev e pt n = (pt 1 + (perp (eT pt 0)).smul e.hwFw + (eT pt 0).smul μ,
+      pt 1 - (perp (eT pt 0)).smul e.hwFw + (eT pt 0).smul μn)) :
+    startPos e pt n = pt 0 + (perp (eT pt 0)).smul e.hwFw + (eT pt 0).smul (-(capShift e.o.startCap e.hwFw))
+    ∧ startNeg e pt n = pt 0 - (perp (eT pt 0)).smul e.hwFw + (eT pt 0).smul (-(capShift e.o.startCap e.hwFw)) := by
+  by_cases hsc : e.o.startCap = .round
+  · have hc0 : capShift e.o.startCap e.hwFw = 0 := by rw [hsc]; rfl
+    have hfp : (fPt e pt).pos.next = pt 0 + (perp (eT pt 0)).smul e.hwFw := rfl
+    have hfn : (fPt e pt).neg.next = pt 0 - (perp (eT pt 0)).smul e.hwFw := rfl
+    unfold startPos startNeg
+    rw [hc0, hsc]
+    simp only [clipSidePos_round, hfp, hfn]
+    constructor <;> (apply P.ext' <;> simp only [geom] <;> ring)
+  obtain ⟨hL0, hunit, hE⟩ := edge_eq hs0 hs pt 0 hL
+  have ht : normalize (pt (0 + 1) - pt 0) = eT pt 0 := rfl
+  have hswap : normalize (pt 0 - pt (0 + 1)) = (eT pt 0).smul (-1) := by rw [normalize_swap, ht]
+  have hunit' : (normalize (pt 0 - pt (0 + 1))).sqLen = 1 := by
+    rw [hswap]; simp only [geom] at hunit ⊢; linear_combination hunit
+  have hmu : eps < |eL pt 0 + μ| := by rw [abs_of_pos (by linarith)]; linarith
+  have hmun : eps < |eL pt 0 + μn| := by rw [abs_of_pos (by linarith)]; linarith
+  have hx : (pt (0 + 1)).x - (pt 0).x = (eT pt 0).x * eL pt 0 := by
+    have := congrArg P.x hE; simpa only [geom] using this
+  have hy : (pt (0 + 1)).y - (pt 0).y = (eT pt 0).y * eL pt 0 := by
+    have := congrArg P.y hE; simpa only [geom] using this
+  have hfp : (fPt e pt).pos.next = pt 0 + (perp (eT pt 0)).smul e.hwFw := rfl
+  have hfn : (fPt e pt).neg.next = pt 0 - (perp (eT pt 0)).smul e.hwFw := rfl
+  constructor
+  · unfold startPos
+    rw [hsec, hix, hfp]
+    have e1 : pt 0 + (perp (eT pt 0)).smul e.hwFw = pt 0 + (perp (normalize (pt 0 - pt (0 + 1)))).smul (-e.hwFw) := by
+      rw [hswap]; apply P.ext' <;> simp only [perp, geom] <;> ring
+    rw [e1]
+    have := clip_side_value eps heps e.o.startCap hsc (pt 0) (pt (0 + 1))
+      (pt (0 + 1) + (perp (eT pt 0)).smul e.hwFw + (eT pt 0).smul μ) (-e.hwFw) e.hwFw (eL pt 0 + μ) hunit'
+      (by rw [hswap]; apply P.ext' <;> simp only [perp, geom] <;> linarith) hmu
+    rw [this, hswap]
+    apply P.ext' <;> simp only [perp, geom] <;> ring
+  · unfold startNeg
+    rw [hsec, hix, hfn]
+    have e1 : pt 0 - (perp (eT pt 0)).smul e.hwFw = pt 0 + (perp (normalize (pt 0 - pt (0 + 1)))).smul e.hwFw := by
+      rw [hswap]; apply P.ext' <;> simp only [perp, geom] <;> ring
+    rw [e1]
+    have := clip_side_value eps heps e.o.startCap hsc (pt 0) (pt (0 + 1))
+      (pt (0 + 1) - (perp (eT pt 0)).smul e.hwFw + (eT pt 0).smul μn) e.hwFw e.hwFw (eL pt 0 + μn) hunit'
+      (by rw [hswap]; apply P.ext' <;> simp only [perp, geom] <;> linarith) hmun
+    rw [this, hswap]
+    apply P.ext' <;> simp only [perp, geom] <;> ring
+
+/-! ## joins with a shifted outer side: clipped `MiterClip` -/
+
+/-- the shift (in half widths) of the two-vertex side of the join at `pt i` beyond the join, read off the model's
+own side points and clamped to `[0, |tan(θ/2)|]`: `0` for bevel-shaped joins, the clip shift for a clipped `MiterClip` -/
+noncomputable def lamAt (e : Env K) (pt : Nat → P K) (i : Nat) : K :=
+  Max.max 0 (Min.min
+    ((((jEP e pt i).pos.prev - (pt i + (perp (eT pt (i - 1))).smul e.hwFw)).dot (eT pt (i - 1))
+      + ((jEP e pt i).neg.prev - (pt i - (perp (eT pt (i - 1))).smul e.hwFw)).dot (eT pt (i - 1))) / e.hwFw)
+    |jtau pt (i - 1)|)
+
+theorem lamAt_nonneg (e : Env K) (pt : Nat → P K) (i : Nat) : 0 ≤ lamAt e pt i := le_max_left _ _
+
+theorem lamAt_le (e : Env K) (pt : Nat → P K) (i : Nat) : lamAt e pt (i + 1) ≤ |jtau pt i| := by
+  unfold lamAt
+  exact max_le (abs_nonneg _) (min_le_right _ _)
+
+/-- the side points of the join at `pt (k+1)` in closed form, outer shift `lam` included -/
+structure JClosed (e : Env K) (pt : Nat → P K) (k : Nat) (ps ns : Bool) (lam : K) : Prop where
+  cpos : 0 < 1 + (eT pt k).dot (eT pt (k + 1))
+  inner_pos : 0 ≤ (eT pt k).cross (eT pt (k + 1)) → ps = true
+  inner_neg : (eT pt k).cross (eT pt (k + 1)) < 0 → ns = true
+  bevel : (e.o.join = .bevel ∨ e.o.join = .round) → ¬ (ps = true ∧ ns = true)
+  bevel0 : (e.o.join = .bevel ∨ e.o.join = .round) → lam = 0
+  psingle : (jEP e pt (k + 1)).pos.single.isSome = ps
+  nsingle : (jEP e pt (k + 1)).neg.single.isSome = ns
+  posPrev : (jEP e pt (k + 1)).pos.prev
+    = pt (k + 1) + (perp (eT pt k)).smul e.hwFw + (eT pt k).smul (e.hwFw * (if ps then 0 else lam))
+  posNext : (jEP e pt (k + 1)).pos.next
+    = pt (k + 1) + (perp (eT pt (k + 1))).smul e.hwFw + (eT pt (k + 1)).smul (e.hwFw * (if ps then 0 else -lam))
+  negPrev : (jEP e pt (k + 1)).neg.prev
+    = pt (k + 1) - (perp (eT pt k)).smul e.hwFw + (eT pt k).smul (e.hwFw * (if ns then 0 else lam))
+  negNext : (jEP e pt (k + 1)).neg.next
+    = pt (k + 1) - (perp (eT pt (k + 1))).smul e.hwFw + (eT pt (k + 1)).smul (e.hwFw * (if ns then 0 else -lam))
+  sPosPrev : sPrev (jEP e pt (k + 1)).pos
+    = pt (k + 1) + (perp (eT pt k)).smul e.hwFw + (eT pt k).smul (e.hwFw * (if ps then -jtau pt k else lam))
+  sPosNext : sNext (jEP e pt (k + 1)).pos
+    = pt (k + 1) + (perp (eT pt (k + 1))).smul e.hwFw + (eT pt (k + 1)).smul (e.hwFw * (if ps then jtau pt k else -lam))
+  sNegPrev : sPrev (jEP e pt (k + 1)).neg
+    = pt (k + 1) - (perp (eT pt k)).smul e.hwFw + (eT pt k).smul (e.hwFw * (if ns then jtau pt k else lam))
+  sNegNext : sNext (jEP e pt (k + 1)).neg
+    = pt (k + 1) - (perp (eT pt (k + 1))).smul e.hwFw + (eT pt (k + 1)).smul (e.hwFw * (if ns then -jtau pt k else -lam))
+
+/-- an unshifted join (`JClosed0`) is a `JClosed` with `lam = 0` -/
+theorem jclosed_of_zero {e : Env K} {pt : Nat → P K} {k : Nat} {ps ns : Bool} (J : JClosed0 e pt k ps ns) :
+    JClosed e pt k ps ns 0 := by
+  have hz : ∀ (a v : P K) (b : Bool), a + v.smul (e.hwFw * (if b then 0 else 0)) = a := by
+    intro a v b; apply P.ext' <;> simp only [geom, ite_self] <;> ring
+  have hz' : ∀ (a v : P K) (b : Bool), a + v.smul (e.hwFw * (if b then 0 else -0)) = a := by
+    intro a v b; apply P.ext' <;> simp only [geom, neg_zero, ite_self] <;> ring
+  refine ⟨J.cpos, J.inner_pos, J.inner_neg, J.bevel, fun _ => rfl, J.psingle, J.nsingle, ?_, ?_, ?_, ?_, J.sPosPrev,
+    ?_, J.sNegPrev, ?_⟩
+  · rw [hz]; exact J.posPrev
+  · rw [hz']; exact J.posNext
+  · rw [hz]; exact J.negPrev
+  · rw [hz']; exact J.negNext
+  · rw [neg_zero]; exact J.sPosNext
+  · rw [neg_zero]; exact J.sNegNext
+
+/-- `lamAt = 0` when both raw `prev` side points of the join are the unshifted bevel points -/
+theorem lamAt_zero {e : Env K} {pt : Nat → P K} {k : Nat}
+    (h1 : (jEP e pt (k + 1)).pos.prev = pt (k + 1) + (perp (eT pt k)).smul e.hwFw)
+    (h2 : (jEP e pt (k + 1)).neg.prev = pt (k + 1) - (perp (eT pt k)).smul e.hwFw) : lamAt e pt (k + 1) = 0 := by
+  unfold lamAt
+  simp only [Nat.add_sub_cancel]
+  rw [h1, h2]
+  have z1 : ((pt (k + 1) + (perp (eT pt k)).smul e.hwFw) - (pt (k + 1) + (perp (eT pt k)).smul e.hwFw)).dot (eT pt k) = 0 := by
+    simp only [geom]; ring
+  have z2 : ((pt (k + 1) - (perp (eT pt k)).smul e.hwFw) - (pt (k + 1) - (perp (eT pt k)).smul e.hwFw)).dot (eT pt k) = 0 := by
+    simp only [geom]; ring
+  rw [z1, z2]
+  simp [abs_nonneg]
+
+/-- `lamAt` is the shift `lam / hw` of the one shifted raw `prev` point when `0 ≤ lam ≤ hw·|tan(θ/2)|` -/
+theorem lamAt_clip {e : Env K} {pt : Nat → P K} {k : Nat} (hhw : 0 < e.hwFw) (hu0 : (eT pt k).sqLen = 1) (lam : K)
+    (hl0 : 0 ≤ lam) (hl1 : lam ≤ e.hwFw * |jtau pt k|)
+    (h : ((jEP e pt (k + 1)).pos.prev = pt (k + 1) + (perp (eT pt k)).smul e.hwFw
+          ∧ (jEP e pt (k + 1)).neg.prev = pt (k + 1) - (perp (eT pt k)).smul e.hwFw + (eT pt k).smul lam)
+        ∨ ((jEP e pt (k + 1)).pos.prev = pt (k + 1) + (perp (eT pt k)).smul e.hwFw + (eT pt k).smul lam
+          ∧ (jEP e pt (k + 1)).neg.prev = pt (k + 1) - (perp (eT pt k)).smul e.hwFw)) :
+    lamAt e pt (k + 1) = lam / e.hwFw := by
+  have hne : e.hwFw ≠ 0 := ne_of_gt hhw
+  have hraw : (((jEP e pt (k + 1)).pos.prev - (pt (k + 1) + (perp (eT pt k)).smul e.hwFw)).dot (eT pt k)
+      + ((jEP e pt (k + 1)).neg.prev - (pt (k + 1) - (perp (eT pt k)).smul e.hwFw)).dot (eT pt k)) = lam := by
+    rcases h with ⟨h1, h2⟩ | ⟨h1, h2⟩ <;>
+      (rw [h1, h2]; simp only [geom] at hu0 ⊢; linear_combination lam * hu0)
+  unfold lamAt
+  simp only [Nat.add_sub_cancel]
+  rw [hraw]
+  have hb0 : 0 ≤ lam / e.hwFw := div_nonneg hl0 (le_of_lt hhw)
+  have hb1 : lam / e.hwFw ≤ |jtau pt k| := by rw [div_le_iff₀ hhw]; linarith [mul_comm e.hwFw |jtau pt k|]
+  rw [min_eq_left hb1, max_eq_right hb0]
+
+/-- **the join at `pt (k+1)` in closed form, every non-round join kind**: Bevel, Miter (kept or beyond the limit),
+MiterClip (kept or CLIPPED, `miter_limit ≥ 1`, `eps < w/2`, exact `Line::intersection`) -/
+theorem jEP_closed (e : Env K) (eps : K) (hix : e.ix = lineIntersection eps) (heps : 0 ≤ eps)
+    (hs0 : ∀ x : K, 0 ≤ x → 0 ≤ Transc.sqrt x) (hs : ∀ x : K, 0 ≤ x → Transc.sqrt x * Transc.sqrt x = x)
+    (pt : Nat → P K) (k : Nat)
+    (hj : e.o.join = .bevel ∨ e.o.join = .miter ∨ e.o.join = .miterClip ∨ e.o.join = .round)
+    (hclip : e.o.join = .miterClip → 1 ≤ e.o.miterLimit ∧ eps < e.hwFw) (hhw : 0 < e.hwFw)
+    (hL0 : 0 < (pt (k + 1) - pt k).sqLen) (hL1 : 0 < (pt (k + 1 + 1) - pt (k + 1)).sqLen)
+    (hg : ¬ (eT pt k + eT pt (k + 1)).sqLen < normalEpsilon)
+    (hnf : noFoldAt e (pt k) (pt (k + 1)) (pt (k + 1 + 1))) :
+    JClosed e pt k (jEP e pt (k + 1)).pos.single.isSome (jEP e pt (k + 1)).neg.single.isSome (lamAt e pt (k + 1)) := by
+  by_cases hcase : e.o.join = .miterClip ∧ ¬ keptAt e (pt k) (pt (k + 1)) (pt (k + 1 + 1))
+  swap
+  · -- no clipping: the unshifted closed form
+    have hj0 : e.o.join = .bevel ∨ e.o.join = .miter
+        ∨ (e.o.join = .miterClip ∧ keptAt e (pt k) (pt (k + 1)) (pt (k + 1 + 1))) ∨ e.o.join = .round := by
+      rcases hj with h | h | h | h
+      · exact Or.inl h
+      · exact Or.inr (Or.inl h)
+      · refine Or.inr (Or.inr (Or.inl ⟨h, ?_⟩))
+        by_contra hk
+        exact hcase ⟨h, hk⟩
+      · exact Or.inr (Or.inr (Or.inr h))
+    have J0 := jEP_closed0 e hs0 hs pt k hj0 hL0 hL1 hg hnf
+    rw [lamAt_zero J0.posPrev J0.negPrev]
+    exact jclosed_of_zero J0
+  · obtain ⟨hmc, hnk⟩ := hcase
+    obtain ⟨hml, hepsw⟩ := hclip hmc
+    have hu0 : (eT pt k).sqLen = 1 := (sdiv_unit hs0 hs _ hL0).2
+    have hu1 : (eT pt (k + 1)).sqLen = 1 := (sdiv_unit hs0 hs _ hL1).2
+    obtain ⟨hc, hN0, hN1⟩ := normal_closed hs0 hs _ _ hu0 hu1 hg
+    have hJ : jEP e pt (k + 1) = joinSidesFw e.ix (linePt e (k, pt k)) (linePt e (k + 1, pt (k + 1)))
+        (linePt e (k + 1 + 1, pt (k + 1 + 1))) e.o.miterLimit e.hwFw := rfl
+    have hcongr := fwGeo_congr (prev := linePt e (k, pt k)) (join := linePt e (k + 1, pt (k + 1)))
+        (next := linePt e (k + 1 + 1, pt (k + 1 + 1)))
+        (prev' := EP.mk' (pt k) e.hwFw nan e.o.join (.endpoint 0) false)
+        (join' := EP.mk' (pt (k + 1)) e.hwFw nan e.o.join (.endpoint 0) false)
+        (next' := EP.mk' (pt (k + 1 + 1)) e.hwFw nan e.o.join (.endpoint 0) false) e.o.miterLimit e.hwFw rfl rfl rfl rfl
+    have hfold : (fwGeo (linePt e (k, pt k)) (linePt e (k + 1, pt (k + 1))) (linePt e (k + 1 + 1, pt (k + 1 + 1)))
+        e.o.miterLimit e.hwFw).fold = false := by rw [hcongr]; exact hnf
+    have hunc : (fwGeo (linePt e (k, pt k)) (linePt e (k + 1, pt (k + 1))) (linePt e (k + 1 + 1, pt (k + 1 + 1)))
+        e.o.miterLimit e.hwFw).unclipped = false := by
+      rw [hcongr]
+      cases hh : (fwGeo (EP.mk' (pt k) e.hwFw nan e.o.join (.endpoint 0) false)
+        (EP.mk' (pt (k + 1)) e.hwFw nan e.o.join (.endpoint 0) false)
+        (EP.mk' (pt (k + 1 + 1)) e.hwFw nan e.o.join (.endpoint 0) false) e.o.miterLimit e.hwFw).unclipped with
+      | false => rfl
+      | true => exact absurd hh hnk
+    obtain ⟨cl, cr⟩ := joinSidesFw_clipped e.ix (linePt e (k, pt k)) (linePt e (k + 1, pt (k + 1)))
+      (linePt e (k + 1 + 1, pt (k + 1 + 1))) e.o.miterLimit e.hwFw hmc rfl rfl hfold hunc
+    rw [← hJ, hix] at cl cr
+    have gpt : (fwGeo (linePt e (k, pt k)) (linePt e (k + 1, pt (k + 1))) (linePt e (k + 1 + 1, pt (k + 1 + 1)))
+        e.o.miterLimit e.hwFw).pt = eT pt k := rfl
+    have gnt : (fwGeo (linePt e (k, pt k)) (linePt e (k + 1, pt (k + 1))) (linePt e (k + 1 + 1, pt (k + 1 + 1)))
+        e.o.miterLimit e.hwFw).nt = eT pt (k + 1) := rfl
+    have gn : (fwGeo (linePt e (k, pt k)) (linePt e (k + 1, pt (k + 1))) (linePt e (k + 1 + 1, pt (k + 1 + 1)))
+        e.o.miterLimit e.hwFw).normal = computeNormal (eT pt k) (eT pt (k + 1)) := rfl
+    have gf : (fwGeo (linePt e (k, pt k)) (linePt e (k + 1, pt (k + 1))) (linePt e (k + 1 + 1, pt (k + 1 + 1)))
+        e.o.miterLimit e.hwFw).frontNeg = decide ((eT pt k).cross (eT pt (k + 1)) ≥ Scalar.zero) := rfl
+    have gu : (fwGeo (linePt e (k, pt k)) (linePt e (k + 1, pt (k + 1))) (linePt e (k + 1 + 1, pt (k + 1 + 1)))
+        e.o.miterLimit e.hwFw).unclipped
+        = ((e.o.join == Lyon.StrokeQuad.Join.miter || e.o.join == Lyon.StrokeQuad.Join.miterClip)
+          && !miterLimitIsExceeded (if decide ((eT pt k).cross (eT pt (k + 1)) ≥ Scalar.zero)
+              then -computeNormal (eT pt k) (eT pt (k + 1)) else computeNormal (eT pt k) (eT pt (k + 1))) e.o.miterLimit) := rfl
+    have hjp : (linePt e (k + 1, pt (k + 1))).position = pt (k + 1) := rfl
+    rw [gpt, gnt, gn, gf, hjp] at cl cr
+    rw [gu, hmc] at hunc
+    have hτd : jtau pt k = (eT pt k).cross (eT pt (k + 1)) / (1 + (eT pt k).dot (eT pt (k + 1))) := rfl
+    rw [← hτd] at hN0 hN1
+    have h4 : (four : K) = 4 := by simp only [geom]; norm_num
+    have hne : e.hwFw ≠ 0 := ne_of_gt hhw
+    have hz : ∀ (a v : P K), a + v.smul (e.hwFw * 0) = a := by
+      intro a v; apply P.ext' <;> simp only [geom] <;> ring
+    generalize hNdef : computeNormal (eT pt k) (eT pt (k + 1)) = N at hN0 hN1 hunc cl cr
+    have hsq : N.sqLen = 1 + jtau pt k * jtau pt k := by
+      rw [hN0]; simp only [perp, geom] at hu0 ⊢; linear_combination (1 + jtau pt k * jtau pt k) * hu0
+    have hsqn : (-N).sqLen = 1 + jtau pt k * jtau pt k := by rw [← hsq]; simp only [geom]; ring
+    by_cases hx : (eT pt k).cross (eT pt (k + 1)) ≥ 0
+    · -- left turn: the negative side is clipped
+      have hx' : (eT pt k).cross (eT pt (k + 1)) ≥ Scalar.zero := by simpa [geom] using hx
+      obtain ⟨d1, d2, d3, d4, d5, d6⟩ := cl (decide_eq_true hx')
+      rw [decide_eq_true hx'] at hunc
+      have hexc : miterLimitIsExceeded (-N) e.o.miterLimit = true := by simpa using hunc
+      have hexc' : (-N).sqLen > e.o.miterLimit * e.o.miterLimit * 4 := by
+        unfold miterLimitIsExceeded at hexc; rw [h4] at hexc; exact of_decide_eq_true hexc
+      have hτ0 : 0 ≤ jtau pt k := by rw [hτd]; exact div_nonneg hx (le_of_lt hc)
+      have hF0 : (-N).dot (eT pt k) = jtau pt k := by
+        rw [hN0]; simp only [perp, geom] at hu0 ⊢; linear_combination (jtau pt k) * hu0
+      have hF1 : (-N).dot (eT pt (k + 1)) = -jtau pt k := by
+        rw [hN1]; simp only [perp, geom] at hu1 ⊢; linear_combination (-jtau pt k) * hu1
+      have hP0 : (perp (eT pt k)).dot (-N) = -1 := by
+        rw [hN0]; simp only [perp, geom] at hu0 ⊢; linear_combination (-1 : K) * hu0
+      have hP1 : (perp (eT pt (k + 1))).dot (-N) = -1 := by
+        rw [hN1]; simp only [perp, geom] at hu1 ⊢; linear_combination (-1 : K) * hu1
+      obtain ⟨lam, l0, l1, l2, l3⟩ := clip_lam eps heps hs0 hs (pt (k + 1)) (eT pt k) (eT pt (k + 1)) (-N) e.hwFw
+        e.o.miterLimit 1 (jtau pt k) (by ring) hu0 hu1 hτ0 hF0 hF1 hP0 hP1 hsqn hexc' hml hhw hepsw
+      simp only [one_mul] at l2 l3
+      rw [l2] at d5
+      rw [l3] at d6
+      have hps : (jEP e pt (k + 1)).pos.single.isSome = true := by rw [d1]; rfl
+      have hns : (jEP e pt (k + 1)).neg.single.isSome = false := by rw [d4]; rfl
+      have hlam : lamAt e pt (k + 1) = lam / e.hwFw :=
+        lamAt_clip hhw hu0 lam l0 (by rw [abs_of_nonneg hτ0]; exact l1) (Or.inl ⟨d2, d5⟩)
+      have hmul : e.hwFw * (lam / e.hwFw) = lam := by field_simp
+      rw [hps, hns, hlam]
+      refine ⟨hc, fun _ => rfl, fun h => absurd hx (not_le.mpr h), (fun _ h => by simp at h),
+        (fun hb => by rcases hb with hb | hb <;> rw [hb] at hmc <;> cases hmc), hps, hns, ?_, ?_, ?_, ?_, ?_, ?_, ?_, ?_⟩
+      · simp only [if_true, hz]; exact d2
+      · simp only [if_true, hz]; exact d3
+      · simp only [Bool.false_eq_true, if_false, hmul]; exact d5
+      · simp only [Bool.false_eq_true, if_false, mul_neg, hmul]; rw [d6]
+        apply P.ext' <;> simp only [geom] <;> ring
+      · simp only [if_true, sPrev, d1, Option.getD_some]
+        rw [hN0]; apply P.ext' <;> simp only [geom] <;> ring
+      · simp only [if_true, sNext, d1, Option.getD_some]
+        rw [hN1]; apply P.ext' <;> simp only [geom] <;> ring
+      · simp only [Bool.false_eq_true, if_false, sPrev, d4, Option.getD_none, hmul]; exact d5
+      · simp only [Bool.false_eq_true, if_false, sNext, d4, Option.getD_none, mul_neg, hmul]; rw [d6]
+        apply P.ext' <;> simp only [geom] <;> ring
+    · -- right turn: the positive side is clipped
+      have hx' : ¬ (eT pt k).cross (eT pt (k + 1)) ≥ Scalar.zero := by simpa [geom] using hx
+      obtain ⟨d1, d2, d3, d4, d5, d6⟩ := cr (decide_eq_false hx')
+      rw [decide_eq_false hx'] at hunc
+      have hexc : miterLimitIsExceeded N e.o.miterLimit = true := by simpa using hunc
+      have hexc' : N.sqLen > e.o.miterLimit * e.o.miterLimit * 4 := by
+        unfold miterLimitIsExceeded at hexc; rw [h4] at hexc; exact of_decide_eq_true hexc
+      have hτneg : jtau pt k < 0 := by rw [hτd]; exact div_neg_of_neg_of_pos (lt_of_not_ge hx) hc
+      have hF0 : N.dot (eT pt k) = -jtau pt k := by
+        rw [hN0]; simp only [perp, geom] at hu0 ⊢; linear_combination (-jtau pt k) * hu0
+      have hF1 : N.dot (eT pt (k + 1)) = -(-jtau pt k) := by
+        rw [hN1]; simp only [perp, geom] at hu1 ⊢; linear_combination (jtau pt k) * hu1
+      have hP0 : (perp (eT pt k)).dot N = -(-1) := by
+        rw [hN0]; simp only [perp, geom] at hu0 ⊢; linear_combination hu0
+      have hP1 : (perp (eT pt (k + 1))).dot N = -(-1) := by
+        rw [hN1]; simp only [perp, geom] at hu1 ⊢; linear_combination hu1
+      have hsq' : N.sqLen = 1 + -jtau pt k * -jtau pt k := by rw [hsq]; ring
+      obtain ⟨lam, l0, l1, l2, l3⟩ := clip_lam eps heps hs0 hs (pt (k + 1)) (eT pt k) (eT pt (k + 1)) N e.hwFw
+        e.o.miterLimit (-1) (-jtau pt k) (by ring) hu0 hu1 (by linarith) hF0 hF1 hP0 hP1 hsq' hexc' hml hhw hepsw
+      have eS0 : pt (k + 1) - (perp (eT pt k)).smul (-1 * e.hwFw) = pt (k + 1) + (perp (eT pt k)).smul e.hwFw := by
+        apply P.ext' <;> simp only [geom] <;> ring
+      have eS1 : pt (k + 1) - (perp (eT pt (k + 1))).smul (-1 * e.hwFw) = pt (k + 1) + (perp (eT pt (k + 1))).smul e.hwFw := by
+        apply P.ext' <;> simp only [geom] <;> ring
+      rw [eS0, eS1] at l2 l3
+      rw [l2] at d5
+      rw [l3] at d6
+      have hns : (jEP e pt (k + 1)).neg.single.isSome = true := by rw [d1]; rfl
+      have hps : (jEP e pt (k + 1)).pos.single.isSome = false := by rw [d4]; rfl
+      have hlam : lamAt e pt (k + 1) = lam / e.hwFw :=
+        lamAt_clip hhw hu0 lam l0 (by rw [abs_of_neg hτneg]; exact l1) (Or.inr ⟨d5, d2⟩)
+      have hmul : e.hwFw * (lam / e.hwFw) = lam := by field_simp
+      rw [hps, hns, hlam]
+      refine ⟨hc, fun h => absurd h hx, fun _ => rfl, (fun _ h => by simp at h),
+        (fun hb => by rcases hb with hb | hb <;> rw [hb] at hmc <;> cases hmc), hps, hns, ?_, ?_, ?_, ?_, ?_, ?_, ?_, ?_⟩
+      · simp only [Bool.false_eq_true, if_false, hmul]; exact d5
+      · simp only [Bool.false_eq_true, if_false, mul_neg, hmul]; rw [d6]
+        apply P.ext' <;> simp only [geom] <;> ring
+      · simp only [if_true, hz]; exact d2
+      · simp only [if_true, hz]; exact d3
+      · simp only [Bool.false_eq_true, if_false, sPrev, d4, Option.getD_none, hmul]; exact d5
+      · simp only [Bool.false_eq_true, if_false, sNext, d4, Option.getD_none, mul_neg, hmul]; rw [d6]
+        apply P.ext' <;> simp only [geom] <;> ring
+      · simp only [if_true, sPrev, d1, Option.getD_some]
+        rw [hN0]; apply P.ext' <;> simp only [geom] <;> ring
+      · simp only [if_true, sNext, d1, Option.getD_some]
+        rw [hN1]; apply P.ext' <;> simp only [geom] <;> ring
 
 end
 
